@@ -114,6 +114,9 @@ def build(chk):
     c_action(chk)
     c_pressure(chk)
     c_lhs_and_grid(chk)
+    # 'first offset pinned, remaining offsets and all widths minimised': the box of that minimisation is the configured, two-sided one (shared with C09)
+    from .C09_pressure import c_minimiser_bounds
+    c_minimiser_bounds(chk, run_tail=True)
 
 
 def c_profile(chk):
